@@ -120,6 +120,29 @@ func runSelfTest(verif string) int {
 	guardCase("guardBad", true)
 	guardCase("guardGood", false)
 	guardCase("guardFatal", false) // log.Fatal-like exit prunes the path
+	// --- length rule for constant indexes into Split results ---
+	splitCase := func(name string, wantUnguarded bool) {
+		f := need(name)
+		if f == nil {
+			return
+		}
+		bad, n := false, 0
+		for _, s := range constIndexSites(f) {
+			if s.Src != "split" || s.Index == 0 {
+				continue
+			}
+			n++
+			edges := lenAtLeastEdges(f, s.X, s.Index+1)
+			if len(edges) == 0 || reachableWithout(f, s.Instr, edges) != nil {
+				bad = true
+			}
+		}
+		expect("E-GUARD "+name+": Split element read without a length test", n > 0 && bad, wantUnguarded)
+	}
+	splitCase("splitIndexBad", true)
+	splitCase("splitIndexGood", false)
+	splitCase("splitIndexGood2", false)
+	splitCase("splitIndexWeak", true) // the test does not imply the bound
 	// --- path-sensitive search: repeated test of one condition ---
 	if f := need("twiceTested"); f != nil {
 		var a, b ssa.Instruction
